@@ -41,7 +41,9 @@ def _slices(n, rng, full):
 def cases(rng, tier):
     out = []
     def add(a, ix, dt=None):
-        out.append({"a": a, "ix": ix, "dtype": dt or rng.choice(gens.DTYPES)})
+        # the cells: the dtype's extremes / NaN / -0.0 (default), or NEIGHBOURING values (distinct, equal only to a tolerant comparison)
+        dt = dt or rng.choice(gens.DTYPES)
+        out.append({"a": a, "ix": ix, "dtype": dt, "vm": "near" if rng.random() < (0.5 if dt.startswith("float") else 0.25) else None})
     arrs = rlgen.arrays_exhaustive(4 if tier == "quick" else 6)
     for a in arrs:
         n = len(a)
@@ -150,7 +152,7 @@ def run_impl(p):
     from npstructures import RunLengthArray
     ix = p["ix"]
     def f():
-        arr = rlgen.to_values(p["a"], p["dtype"])
+        arr = rlgen.to_values(p["a"], p["dtype"], small=p.get("vm") or False)
         r = RunLengthArray.from_array(arr)
         h = len(p["a"]) + sum(p["a"])
         if h % 3 == 0 and len(arr) >= 2:
@@ -206,7 +208,7 @@ def run_impl(p):
 
 def oracle(p):
     ix = p["ix"]
-    arr = rlgen.to_values(p["a"], p["dtype"])
+    arr = rlgen.to_values(p["a"], p["dtype"], small=p.get("vm") or False)
     k = ix["kind"]
     try:
         if k == "int":
@@ -229,14 +231,14 @@ def lean_request(p):
         return None
     ix = dict(p["ix"])
     ix["op"] = "RL.index"
-    ix["a"] = rlgen.lean_classes(p["a"], p["dtype"])
+    ix["a"] = rlgen.lean_classes(p["a"], p["dtype"], small=p.get("vm") or False)
     if np.dtype(p["dtype"]).kind == "f":
         return None     # NaN letters make runs of length 1; the Lean side of C15 uses plain inequality (C14 covers NaN)
     return ix
 
 
 def decode_lean(p, resp):
-    L = rlgen.letters(p["dtype"])
+    L = rlgen.letters(p["dtype"], p.get("vm") or False)
     dt = p["dtype"]
     ix = p["ix"]
     def vals(cs):
